@@ -1219,4 +1219,67 @@ term -- this is the defect `portable-import-raises` of the first round seen at t
 example : substTokens ["e"] (substTokens ["e"] ["x", "=", "e"])
     = ["x", "=", "(", "(", "e", "+", "ant_e", ")", "+", "ant_e", ")"] := by decide
 
+
+/-! ## reading back: singleton unpacking happens only when there is exactly one variant -/
+
+/-- with several variants (or none) EVERY spelling returns the full per-variant list, whatever `unpack_singleton` says -/
+theorem unpack_only_singleton (vs : List Val) (u : Bool) (h : vs.length ≠ 1) :
+    unpackSingleton vs (vs.length == 1) u = .list vs := by
+  unfold unpackSingleton
+  have : (vs.length == 1) = false := by simpa using h
+  simp [this]
+
+/-- with exactly one variant the unpacking spelling returns THE value, the non-unpacking one the one-element list -/
+theorem unpack_singleton_one (v : Val) (u : Bool) :
+    unpackSingleton [v] (([v] : List Val).length == 1) u = if u then .scalar v else .list [v] := by
+  cases u <;> rfl
+
+/-- the spellings agree: the unpacked read is the head of the list read for a singleton and IS the list read otherwise -/
+theorem getValue_spellings_agree (h : Heap) (m : Ref) (name : String) (vals : List Val)
+    (hl : getValue h m name false = .ok (.list vals)) :
+    getValue h m name true = .ok (match vals with | [v] => .scalar v | _ => .list vals) := by
+  unfold getValue at hl ⊢
+  cases hm : getModel h m with
+  | error e => simp [hm] at hl
+  | ok t =>
+    obtain ⟨i, vs, d⟩ := t
+    simp only [hm] at hl ⊢
+    cases hq : qidOf d name with
+    | none => simp [hq] at hl
+    | some q =>
+      simp only [hq] at hl ⊢
+      cases hv : levelsOf h q vs with
+      | none => simp [hv] at hl
+      | some l =>
+        have hlen : ∀ (ws : List Ref) (r : List Val), levelsOf h q ws = some r → r.length = ws.length := by
+          intro ws
+          induction ws with
+          | nil => intro r hr; simp only [levelsOf, Option.some.injEq] at hr; subst hr; rfl
+          | cons w ws ih =>
+            intro r hr
+            simp only [levelsOf] at hr
+            split at hr
+            · rename_i o rest _ hrest
+              simp only [Option.some.injEq] at hr
+              subst hr
+              simp [ih rest hrest]
+            · cases hr
+        have hll := hlen vs l hv
+        simp only [hv, Except.ok.injEq] at hl ⊢
+        have hvals : l = vals := by
+          unfold unpackSingleton at hl
+          simpa using hl
+        subst hvals
+        unfold unpackSingleton
+        rw [← hll]
+        match l with
+        | [] => rfl
+        | [v] => rfl
+        | _ :: _ :: _ => rfl
+
+example : getValue h0 4 "rho" = .ok (.scalar none) := rfl
+example : getValue h0 4 "rho" false = .ok (.list [none]) := rfl
+example : getValue h0 4 "nosuch" = .error .bad := rfl
+example : (alter h0 4 3).bind (fun h' => getValue h' 4 "e") = .ok (.list [some 0, some 0, some 0]) := rfl
+
 end IrisVerif.C20
